@@ -18,6 +18,9 @@ def benign(prop, name, file, old, new): E.append((prop, f"benign-{name}", file, 
 
 # ---------------------------------------------------------------- C01
 fire("C01", "R1", "clear-lock-on-round-interrupt", "bft/bft.go", "\tb.BlockResult = nil\n", "\tb.BlockResult = nil\n\tb.HighQC = nil\n")
+fire("C01", "R7", "safenode-round-only", "bft/bft.go",
+     "\tif justification.RootHeight > locked.RootHeight || (justification.RootHeight == locked.RootHeight && justification.Round > locked.Round) {",
+     "\tif justification.Round > locked.Round {")
 fire("C01", "R2", "safenode-only-round0", "bft/bft.go", "\tif b.HighQC != nil {\n\t\tif err := b.SafeNode(msg); err != nil {", "\tif b.HighQC != nil && b.Round == 0 {\n\t\tif err := b.SafeNode(msg); err != nil {")
 fire("C01", "R5", "drop-locks-on-root-update", "bft/bft.go", "\t\t\t\t\tb.NewHeight(true)", "\t\t\t\t\tb.NewHeight(false)")
 fire("C01", "R4", "no-duplicate-vote-check", "bft/vote.go", "\tif enabled {\n\t\treturn ErrDuplicateVote()\n\t}\n", "\t_ = enabled\n")
